@@ -721,6 +721,8 @@ class EncodingParser(object):
 
     def handleComment(self):
         """Skip over comments"""
+        # The two dashes of "<!--" may also be the dashes of "-->"
+        self.data.position -= 2
         return self.data.jumpTo(b"-->")
 
     def handleMeta(self):
